@@ -38,7 +38,9 @@ MCTemplates == <<
   T({3, 4},       <<S(-11, NONE), S(NONE, NONE)>>, 1, 2, FALSE),    \* user N below the axis, M free
   T({1, 2},       <<S(-1, 4)>>,                  2, 2, FALSE),      \* wide fixed slot: centre free, edge may be busy
   TX({3, 4},      <<S(NONE, NONE)>>, 150000, 100000, 28000),        \* 2 channels x ceil(28/12.5) = 3 slots
-  TX({1, 2},      <<S(NONE, 3)>>,    100000, 100000, 40000)         \* fixed M = 3 < ceil(40/12.5) = 4: not enough
+  TX({1, 2},      <<S(NONE, 3)>>,    100000, 100000, 40000),        \* fixed M = 3 < ceil(40/12.5) = 4: not enough
+  T({1, 2},       <<S(7, 2)>>,                   1, 2, FALSE),      \* centre legal, upper edge inside the guard band
+  T({3, 4},       <<S(-6, NONE)>>,               1, 2, FALSE)       \* centre legal, lower edge inside the guard band
 >>
 
 \* emission for the spec -> code replay (B2): one JSON line per complete history
